@@ -12,6 +12,10 @@ RULE = (
     "distinct = distinct value of that tuple. 'sole:<filter>' strata have exactly t-1 counting signers "
     "plus one entry that would count if that filter alone were broken."
 )
+RULE_ADDENDUM = (
+    "Additional classes: twins right after an acceptance (other payload, other mode, entries re-filed under other authorized key names); far thresholds (10..2**64) above several good signers; ten-or-more and crowded (11..257 entries under unauthorized keys) envelopes; the same case while standard output fails (only 'reject stays reject' judged); in-place histories; thread schedules with yield injection; unrelated library activity between cases."
+)
+RULE = RULE + " " + RULE_ADDENDUM
 LIMITS = [
     "forged signatures are not constructed",
     "small-order / non-canonical public keys are excluded (conforming verifiers differ)",
